@@ -9,6 +9,11 @@ CONSTANTS
   Uris = {"u1"}
   Want <- WantAll
   CapOff = {}
+  CapMode <- ModeInferred
+  InitSize <- Size3
+  MaxSize = 3
+  Dirs = {"mod"}
+  SendGate = "configured"
   TTLPos = TRUE
   D = 2
   MaxTime = 4
@@ -19,6 +24,7 @@ CONSTANTS
   ListenOwns = TRUE
   ResubRace = TRUE
   GenCheck = FALSE
+  ColdBump = TRUE
   ModernUnsub = FALSE
   ForeignUnsub = FALSE
   Listeners = {}
@@ -31,6 +37,7 @@ CONSTANTS
   MinSteps = 1
   MaxSteps = 9
   Bias = FALSE
+  Script <- ScriptNone
   GenOps = {"change", "tchange", "updated", "connect", "close", "subscribe", "unsubscribe", "list", "tick", "hold", "release"}
 INVARIANTS LeadFresh
 CHECK_DEADLOCK FALSE
